@@ -677,3 +677,25 @@ func SumBig(xs ...string) *big.Int {
 	}
 	return s
 }
+
+// NewOn wraps an already opened world (e.g. on a clone of a prepared store
+// image) whose ledger accepted the given blocks in that order.
+func NewOn(u *world.Universe, w *world.World, accepted []string, menu Menu, orcs ...Oracle) *Inst {
+	vhook.Capture()
+	vhook.Discard()
+	i := &Inst{U: u, W: w, Menu: menu, Orcs: orcs, blocks: map[string][]byte{}, Parent: map[string]string{}, Height: map[string]int64{},
+		Failed: map[string]bool{}}
+	for k, v := range u.Parent {
+		i.Parent[k] = v
+	}
+	for k, v := range u.Height {
+		i.Height[k] = v
+	}
+	i.Names = u.Names
+	i.Ref = world.NewRefTree(u)
+	for _, n := range accepted {
+		i.Ref.Accept(n)
+		i.Accepted = append(i.Accepted, n)
+	}
+	return i
+}
